@@ -91,6 +91,6 @@ NoOutputAfterError == (c.k \in RenderKinds /\ st.status = "error") => st.sink.ca
 IdOf(x) == x.k \o "-" \o ToString(x.shape) \o "-" \o ToString(x.a) \o ToString(x.b) \o ToString(x.path) \o ToString(x.line0) \o ToString(x.pad)
 EmitCase == st.status # "run" =>
   PrintT(ToJson([id |-> IdOf(c), kind |-> "render", tm |-> "TraceC07", prog |-> ProgOf(c), env |-> <<>>,
-                 strict |-> (c.k = "strict"), path |-> PathOf(c), line0 |-> c.line0, usedir |-> TRUE,
+                 strict |-> (c.k = "strict"), path |-> PathOf(c), line0 |-> c.line0, usedir |-> TRUE, reline |-> TRUE,
                  k |-> c.k, parsebad |-> (c.k \in ParseKinds), mention |-> Mention(c.k), wantcause |-> HasCause(c.k)]))
 =============================================================================
